@@ -568,13 +568,14 @@ fn main() {
     match a.mode.as_str() {
         "gen" => gen(&a),
         "search" => search(&a),
+        "probe24" => probe24(),
         _ => { eprintln!("c32: unknown mode"); std::process::exit(2); }
     }
 }
 
 fn gen(a: &Args) {
     let mut rng = Rng::new(a.seed);
-    let mut w = CaseWriter::new(&a.out, "C32", "Corr.C32", 40);
+    let mut w = CaseWriter::new(&a.out, "C32", "Corr.C32", 60);
     let mut mismatch = 0u64;
     if let Some(lines) = a.replay_lines() {
         for l in lines {
@@ -588,10 +589,10 @@ fn gen(a: &Args) {
     }
     let thorough = a.thorough();
     for t in BOUNDARY.iter().chain(BOUNDARY2.iter()) {
-        let r = run_case(t, 60);
+        let r = run_case(t, 40);
         w.push(r.term, replay_of(t), r.nontrivial, "boundary");
     }
-    let n_valid = if thorough { 12_000 } else { 1_100 };
+    let n_valid = if thorough { 9_000 } else { 700 };
     for i in 0..n_valid {
         // at most ~2% of the documents may use surrogate-pair escapes (recorded finding, class 2)
         let pairs = rng.chance(1, 50);
@@ -599,11 +600,11 @@ fn gen(a: &Args) {
         let (text, intended) = gen_valid(&mut rng, depth, size, pairs);
         // the generator's tree and the independent reference reader must agree on what the text denotes
         if ref_parse(&text).as_ref() != Some(&intended) { mismatch += 1; }
-        let r = run_case(&text, if thorough { 40 } else { 24 });
+        let r = run_case(&text, if thorough { 32 } else { 20 });
         let kind = if pairs { "valid_pairs_allowed" } else if t_depth(&intended) == 0 { "valid_scalar" } else if t_depth(&intended) >= 4 { "valid_deep" } else { "valid_structured" };
         w.push(r.term, replay_of(&text), r.nontrivial, kind);
     }
-    let n_mut = if thorough { 4_000 } else { 400 };
+    let n_mut = if thorough { 3_000 } else { 250 };
     for _ in 0..n_mut {
         let (text, _) = gen_valid(&mut rng, 3, 10, false);
         let m = mutate(&mut rng, &text);
@@ -732,4 +733,28 @@ fn oracle_ok(text: &str) -> bool {
         }
     }
     true
+}
+
+/// One-off check (not part of ./check): a document whose data buffer passes 2^24 bytes.  The offset
+/// field of an entry is 24 bits wide and the builder masks it silently, so elements stored beyond
+/// 16 MiB are read from the wrong place.  Too large to be judged inside Coq; the theorems exclude it
+/// through `fits` (encoding at most 2^24 bytes).
+fn probe24() {
+    let n = 300usize;
+    let mut text = String::from("[");
+    for i in 0..n { if i > 0 { text.push(','); } text.push('"'); text.push_str(&format!("{:05}", i)); for _ in 0..59_995 { text.push('x'); } text.push('"'); }
+    text.push_str(",\"tail\"]");
+    let v = parse_json(&text).expect("parse").value;
+    let bytes = v.to_jsonb_bytes();
+    println!("text {} bytes, jsonb {} bytes", text.len(), bytes.len());
+    let root = OwnedValue::Jsonb(bytes);
+    let mut bad = 0;
+    let mut first_bad = None;
+    for i in 0..=n {
+        let want: Vec<u8> = match &v { JsonValue::Array(a) => match &a[i] { JsonValue::String(s) => s.as_bytes().to_vec(), _ => vec![] }, _ => vec![] };
+        let got = catch(|| root.jsonb_array_get(i));
+        let ok = matches!(&got, Caught::Done(Ok(Some(OwnedValue::Text(s)))) if s.as_bytes() == &want[..]);
+        if !ok { bad += 1; if first_bad.is_none() { first_bad = Some((i, match got { Caught::Done(Ok(Some(OwnedValue::Text(s)))) => format!("Text starting {:?} (len {})", &s[..s.len().min(8)], s.len()), Caught::Done(Ok(o)) => format!("{:?}", o.is_some()), Caught::Done(Err(e)) => format!("Err {}", e), Caught::Panicked(m) => format!("panic {}", m) })); } }
+    }
+    println!("elements read back wrongly: {} of {}; first: {:?}", bad, n + 1, first_bad);
 }
